@@ -182,6 +182,23 @@ def check(design, foreign=None):
                         drive(bits, f"instance {cell.name} output {pn}")
             else:
                 bad(f"{cw}: unknown cell type")
+        # write ports of one memory are numbered 0..n-1 by PORTID, and the per-write-port masks of its ports
+        # (transparency / collision on read ports, priority on write ports) have one bit for each of them
+        by_mem = {}
+        for cell in mod.cells:
+            mid = cell.params.get("\\MEMID")
+            if cell.type in ("$memwr_v2", "$memrd_v2") and mid and mid[0] == "str":
+                by_mem.setdefault(mid[1], {"$memwr_v2": [], "$memrd_v2": []})[cell.type].append(cell)
+        for mid, ports in by_mem.items():
+            n = len(ports["$memwr_v2"])
+            ids = sorted(param_int(c, "\\PORTID") if "\\PORTID" in c.params else -1 for c in ports["$memwr_v2"])
+            if ids != list(range(n)):
+                bad(f"{where}: write ports of memory {mid} have PORTIDs {ids}, expected 0..{n - 1}")
+            for c in ports["$memwr_v2"] + ports["$memrd_v2"]:
+                for pn in ("\\TRANSPARENCY_MASK", "\\COLLISION_X_MASK", "\\PRIORITY_MASK"):
+                    v = c.params.get(pn)
+                    if v is not None and v[0] == "bits" and len(v[1]) != max(n, 1) and len(v[1]) != n:
+                        bad(f"{where} cell {c.name}: {pn[1:]} is {len(v[1])} bits wide, memory {mid} has {n} write ports")
         # exactly one driver per wire bit (bidirectional port bits excepted)
         for w in mod.wires.values():
             for k in range(w.width):
